@@ -11,7 +11,10 @@ import (
 	"strings"
 	"sync"
 
+	"golang.org/x/image/font"
 	"golang.org/x/image/font/gofont/goregular"
+	xsfnt "golang.org/x/image/font/sfnt"
+	"golang.org/x/image/math/fixed"
 	"seehuhn.de/go/postscript/funit"
 
 	"seehuhn.de/go/sfnt"
@@ -396,6 +399,12 @@ func runDerived(items []vlib.Sx) (impl, fail, sig string, err error) {
 		}
 	}
 
+	// ---- an independent reader (golang.org/x/image/font/sfnt) sees the same
+	// glyph count, units per em and advance widths in the written file
+	if s := crossCheckXImage(file.Bytes(), n, ws, int(binary.BigEndian.Uint16(tabs["head"][18:]))); s != "" {
+		return impl, s, "c12-ximage", nil
+	}
+
 	// ---- the font's own queries agree with the outlines and with each other
 	if s := checkQueries(f, kind, boxes, ws, proper, want.bbox, fixed); s != "" {
 		return impl, s, "c12-query", nil
@@ -418,6 +427,47 @@ func runDerived(items []vlib.Sx) (impl, fail, sig string, err error) {
 		return impl, "after Write and Read: " + s, "c12-reread", nil
 	}
 	return impl, "", "", nil
+}
+
+// crossCheckXImage parses the written file with golang.org/x/image/font/sfnt.
+// A font that reader does not support is not an error of the code under test;
+// only a successfully parsed font is compared.
+func crossCheckXImage(file []byte, n int, ws []funit.Int16, upem int) (res string) {
+	defer func() {
+		if e := recover(); e != nil {
+			res = "" // the foreign parser is not under test
+		}
+	}()
+	xf, err := xsfnt.Parse(file)
+	if err != nil {
+		stats["ximage_rejected"]++
+		return ""
+	}
+	stats["ximage_parsed_and_compared"]++
+	if xf.NumGlyphs() != n {
+		return fmt.Sprintf("x/image reads %d glyphs, the font has %d", xf.NumGlyphs(), n)
+	}
+	if int(xf.UnitsPerEm()) != upem {
+		return fmt.Sprintf("x/image reads unitsPerEm %d, head has %d", xf.UnitsPerEm(), upem)
+	}
+	var buf xsfnt.Buffer
+	step := 1
+	if n > 2000 {
+		step = n / 500
+	}
+	for i := 0; i < n; i += step {
+		if int64(ws[i])*int64(upem)*64 >= 1<<31 || ws[i] < 0 {
+			continue // beyond the 26.6 fixed-point range of that reader
+		}
+		adv, err := xf.GlyphAdvance(&buf, xsfnt.GlyphIndex(i), fixed.I(upem), font.HintingNone)
+		if err != nil {
+			return ""
+		}
+		if adv != fixed.I(int(uint16(ws[i]))) {
+			return fmt.Sprintf("x/image reads advance %v for glyph %d, the font has %d", adv, i, ws[i])
+		}
+	}
+	return ""
 }
 
 // checkQueries compares Widths, GlyphWidth, GlyphBBox(es), FontBBox,
@@ -537,6 +587,11 @@ func randWidths(r *vlib.Rand, n int, mode int) []funit.Int16 {
 		case 2: // extremes
 			ws[i] = vlib.Pick(r, []funit.Int16{0, 1, 2, 32766, 32767, 500})
 		case 3: // all zero
+		case 5: // almost fixed pitch: neighbouring widths differ by one unit
+			ws[i] = c + funit.Int16(r.Intn(2))
+			if r.Chance(1, 5) {
+				ws[i] = 0
+			}
 		default:
 			ws[i] = funit.Int16(r.Range(0, 3000))
 		}
@@ -600,7 +655,7 @@ func genDerived(run *vlib.Run, r *vlib.Rand, tier string) {
 					boxes[i] = funit.Rect16{}
 				}
 			}
-			emitDerived(run, kinds[pat%2], boxes, randWidths(r, n, r.Intn(5)), randCmap(r), "derived:patterns")
+			emitDerived(run, kinds[pat%2], boxes, randWidths(r, n, r.Intn(6)), randCmap(r), "derived:patterns")
 		}
 	}
 	for k := 0; k < vlib.Count(tier, 150, 4000); k++ {
@@ -609,7 +664,7 @@ func genDerived(run *vlib.Run, r *vlib.Rand, tier string) {
 			n = vlib.Pick(r, []int{255, 256, 257, 300})
 		}
 		bm := vlib.Pick(r, []int{0, 0, 0, 1, 2, 3})
-		emitDerived(run, vlib.Pick(r, kinds), randBoxes(r, n, bm), randWidths(r, n, r.Intn(5)), randCmap(r), "derived:random")
+		emitDerived(run, vlib.Pick(r, kinds), randBoxes(r, n, bm), randWidths(r, n, r.Intn(6)), randCmap(r), "derived:random")
 	}
 	// improper boxes (xMin > xMax) can only be stored in glyf data; outside the
 	// property's domain, compared with the model only
